@@ -72,16 +72,9 @@ Fixpoint prefix_res {A B} (p : A -> B -> res bool) (d : B) (xs : list B) (ps : l
 (* ---------- strings ---------- *)
 Definition str_eqb := String.eqb.
 
-Fixpoint str_ltb (a b : string) : bool :=
-  match a, b with
-  | EmptyString, EmptyString => false
-  | EmptyString, String _ _ => true
-  | String _ _, EmptyString => false
-  | String c a', String d b' =>
-      let x := nat_of_ascii c in let y := nat_of_ascii d in
-      if Nat.ltb x y then true else if Nat.ltb y x then false else str_ltb a' b'
-  end.
-Definition str_leb (a b : string) : bool := negb (str_ltb b a).
+(* code-unit (byte) lexicographic order: what JS sort() / < give on ASCII strings, and Rust's str Ord *)
+Definition str_ltb (a b : string) : bool := String.ltb a b.
+Definition str_leb (a b : string) : bool := String.leb a b.
 
 Fixpoint mem_str (k : string) (l : list string) : bool :=
   match l with [] => false | x :: l' => if String.eqb k x then true else mem_str k l' end.
